@@ -23,6 +23,7 @@ type model struct {
 	Harness string            `json:"harness"`
 	Vars    map[string]uint64 `json:"vars"`
 	Params  map[string]int    `json:"params"`
+	Lists   map[string][]string `json:"lists"`
 	Timeout int               `json:"timeout_ms"`
 }
 
@@ -119,6 +120,20 @@ func Param(name string, def int) int {
 	}
 	return def
 }
+
+// Strings returns a list that the engine computed from the current source
+// before the harness ran (a discovery pass, see the sidecar's "discover");
+// natively it is read back from the model.
+func Strings(name string) []string {
+	if cur != nil && cur.m.Lists != nil {
+		return append([]string{}, cur.m.Lists[name]...)
+	}
+	return nil
+}
+
+// TraceKeys makes the engine record every constant string key looked up in m
+// and in the maps nested in it from now on (discovery passes). Natively a no-op.
+func TraceKeys(m map[string]any) {}
 
 // All / Any / InSet / IteInt: branch-free combinators (single SMT terms under
 // the engine, plain evaluation natively).
